@@ -22,6 +22,7 @@ RULE = (
     "encoding (structure level, numbers by value); json_reader on the text returns the records; they equal the binary "
     "decode of the same data (numbers by value); a JSON text with the defaulted keys removed yields the schema defaults. "
     "distinct_nontrivial = distinct (schema, record list, write_union_type) cases."
+    ' SPECIAL includes unions with inline "error" branches.'
 )
 ASSUMPTIONS = [
     "non-finite floats are excluded: the specification's JSON encoding has no representation for them",
